@@ -57,7 +57,7 @@ class World:
         for mod, names in (
             (comms, ("zmq", "get_context")), (ds_mod, ("ThreadPoolExecutor", "wait", "time_ns", "shm_api")),
             (shm_client, ("socket", "SharedMemory", "multiprocessing", "time")), (shm_server, ("socket", "signal")),
-            (shm_dataset, ("SharedMemory", "get_capacity", "disk", "time", "uuid")), (shm_api, ("get_client_port", "publish_client_port")),
+            (shm_dataset, ("SharedMemory", "get_capacity", "disk", "time")), (shm_api, ("get_client_port", "publish_client_port")),
         ):
             for n in names:
                 seam(mod, n)
@@ -95,7 +95,8 @@ class World:
             self._u[0] += 1
             return f"{self._u[0]:08d}-x"
 
-        shm_dataset.uuid = types.SimpleNamespace(uuid4=uuid4)
+        if hasattr(shm_dataset, "uuid"):
+            shm_dataset.uuid = types.SimpleNamespace(uuid4=uuid4)
         shm_client.time = types.SimpleNamespace(sleep=lambda s: None)
         shm_api.get_client_port = lambda: 1
         shm_api.publish_client_port = lambda p: None
@@ -126,7 +127,7 @@ class World:
         for h in HOSTS:
             sock = SrvSock()
             shm_server.socket = types.SimpleNamespace(socket=lambda *a, sock=sock: sock, AF_INET=2, SOCK_DGRAM=2)
-            self.srv[h] = (shm_server.LocalServer(1, f"p{h}", 1 << 20), sock)
+            self.srv[h] = (shm_server.LocalServer(1, f"p{h}", scenario.get("capacity", {}).get(h, 1 << 20)), sock)
 
         class CliSock:
             def __init__(self, *a):
@@ -453,8 +454,13 @@ class World:
                     out.append(("fetch_count", f"controller received the fetched payload {len(ps)} times", f"{d!r}"))
                 elif (bytes(ps[0].value), ps[0].header.deser_fun) != self.data[d]:
                     out.append(("fetch_bytes_differ", "fetched bytes or decoding function differ from the source", f"{d!r}"))
+            elif kind == "failure-reported":
+                _, _, h = exp
+                n = sum(1 for m in self.published(h) if isinstance(m, msg.DatasetTransmitFailure))
+                if n == 0:
+                    out.append(("store_failure_silent", "the target could not store the payload and nobody was told", f"{h}: {d!r}; published {self.published(h)}"[:300]))
         fails = [m for h in HOSTS for m in self.published(h) if isinstance(m, msg.DatasetTransmitFailure)]
-        if fails:
+        if fails and not any(e[0] == "failure-reported" for e in sc["expect"]):
             out.append(("transmit_failure_reported", "a data server reported DatasetTransmitFailure in a fault pattern it should tolerate", f"{fails[0]}"[:300]))
         return out
 
@@ -511,6 +517,9 @@ SCENARIOS = {
     "T+fetch;purge@A": {"initial": [("A", "d")], "commands": [("transmit", "d", "A", "B", 0), ("fetch", "d", "A", 1), ("purge", "d", "A")],
                         "purge_guard": {"2": "after-answer", "target": "B", "fetched": True},
                         "expect": [("held", "d", "B"), ("announced", "d", "B", 1, 1), ("fetched", "d"), ("not-held", "d", "A")]},
+    # the target's store refuses the payload (larger than its capacity): not a frame fault, but the transfer must not vanish
+    "T;store-refused@B": {"initial": [("A", "d")], "commands": [("transmit", "d", "A", "B", 0)], "capacity": {"B": 4},
+                          "expect": [("failure-reported", "d", "B"), ("not-held", "d", "B")]},
     "T-to-holder": {"initial": [("A", "d"), ("B", "d")], "commands": [("transmit", "d", "A", "B", 0)],
                     "expect": [("held", "d", "B"), ("announced", "d", "B", 0, 0)]},
     # both directions: B is a source first and a target later; controller Syn numbers overlap the transmit idx space
